@@ -116,6 +116,18 @@ def add_e2e_suite(c, samples):
             cases += 1
         ops.append("state 0")
         exp[len(ops) - 1] = ("[" + " ".join(sorted(sess)) + "] [] [] [" + " ".join(sorted(x.split(",")[1] for x in sess)) + "]", "session-for-rejected-connect")
+    # more connection set-ups FAIL (first packet is not CONNECT) than there are set-up workers; the store still answers
+    ops.append("reset 1")
+    ops.append("authstatic admin secret")
+    for k in range(23):
+        ops.append(f"open f{k} 0")
+        ops.append(f"raw f{k} c000")
+        exp[len(ops) - 1] = ({f"f{k}": ["CLOSED"]}, "connection-left-open-after-failed-set-up")
+    ops.append(f"connectas good 0 cidg {tok('admin')} {tok('secret')} 60 -")
+    exp[len(ops) - 1] = ({"good": ["connack(0)"]}, "rejected-despite-match")
+    ops.append(f"connectas bad 0 cidb {tok('admin')} {tok('nope')} 60 -")
+    exp[len(ops) - 1] = ({"bad": ["connack(4)"]}, "admitted-or-no-refusal-connack")
+    cases += 2
     ops.append("bye")
     c.run_suite(Suite("connect-through-real-store", "broker", ops, monitor_for(exp), {"cases": cases, "nontrivial": cases},
                       resets=("reset",), retry_args=["200"]), timeout=1800)
